@@ -2,13 +2,18 @@
 // output raw unless explicitly cancelled.
 //
 // M1: TLC checks spec/C03Model.tla (reference design holds; every named
-//     deviation is rejected).
+//
+//	deviation is rejected).
+//
 // M2: TLC exports the case tables (print site x autoescape attribute 4-tuple
-//     -> is escaping on at the print, chain -> class / expected texts); the
-//     harness renders every case with the real soyhtml over a large adversarial
-//     value set and judges the bytes written with independent decoders.
+//
+//	-> is escaping on at the print, chain -> class / expected texts); the
+//	harness renders every case with the real soyhtml over a large adversarial
+//	value set and judges the bytes written with independent decoders.
+//
 // M3: seeded random (site, attributes, chain, value) cases are recorded from
-//     the real renderer and validated by TLC (spec/C03Trace.tla).
+//
+//	the real renderer and validated by TLC (spec/C03Trace.tla).
 package c03
 
 import (
@@ -536,7 +541,7 @@ func Grid(ctx *core.Ctx, real *c16.Real, t *Tables, vals []Value, off, y [][]str
 	r := rand.New(rand.NewSource(ctx.Seed))
 	inSample := [3][]bool{nil, make([]bool, len(vals)), make([]bool, len(vals))}
 	for vi, v := range vals {
-		must := v.ExpIdx >= 0 || (len(v.Text) <= 2 && hasSpecial(v.Text))
+		must := v.ExpIdx >= 0 || (len(v.Text) <= 2 && v.Text != "" && strings.Trim(v.Text, "&<>\"'") == "")
 		inSample[1][vi] = must || r.Intn(ctx.Pick(8, 6)) == 0
 		inSample[2][vi] = must || r.Intn(ctx.Pick(8, 3)) == 0
 	}
